@@ -49,6 +49,11 @@ type Case struct {
 	Code    uint32 `json:"code,omitempty"`
 	Procs   int    `json:"procs"`             // GOMAXPROCS during the case
 	CtlCtx  string `json:"ctl_ctx,omitempty"` // control group: "background" | "cancel" | "timeout"
+	// Cache: "" | "mem" | "dir": the runtime under test uses a CompilationCache of that kind.
+	// Primed: "" | "off" | "on": before the runtime under test exists, another runtime sharing the
+	// cache, with close-on-context-done off / on, compiled the same guest binaries (and stays open).
+	Cache  string `json:"cache,omitempty"`
+	Primed string `json:"primed,omitempty"`
 	// Overlap: further calls on the same instance, each on its own goroutine and api.Function
 	Overlap *Overlap `json:"overlap,omitempty"`
 }
@@ -174,7 +179,42 @@ func runCase(c *Case) (res Result) {
 	defer runtime.GOMAXPROCS(old)
 
 	bg := context.Background()
-	rt := wazero.NewRuntimeWithConfig(bg, wz.Config(c.Engine).WithCloseOnContextDone(true))
+	cfg := wz.Config(c.Engine).WithCloseOnContextDone(true)
+	if c.Cache != "" {
+		var cache wazero.CompilationCache
+		if c.Cache == "dir" {
+			dir, err := os.MkdirTemp(evid.WorkDir(), "c07-cache-")
+			if err != nil {
+				res.Msg = "harness: " + err.Error()
+				return
+			}
+			defer os.RemoveAll(dir)
+			if cache, err = wazero.NewCompilationCacheWithDir(dir); err != nil {
+				res.Msg = "harness: " + err.Error()
+				return
+			}
+		} else {
+			cache = wazero.NewCompilationCache()
+		}
+		defer cache.Close(bg)
+		cfg = cfg.WithCompilationCache(cache)
+		if c.Primed != "" {
+			// another runtime that shares the cache compiled the very same binaries first
+			other := wazero.NewRuntimeWithConfig(bg, wz.Config(c.Engine).WithCloseOnContextDone(c.Primed == "on").WithCompilationCache(cache))
+			defer other.Close(bg)
+			bins := [][]byte{buildCycle(&c.Shape)}
+			if c.Shape.twoModules() {
+				bins = append(bins, buildOuter(&c.Shape))
+			}
+			for _, b := range bins {
+				if _, err := other.CompileModule(bg, b); err != nil {
+					res.Msg = "harness: priming the cache: " + err.Error()
+					return
+				}
+			}
+		}
+	}
+	rt := wazero.NewRuntimeWithConfig(bg, cfg)
 	defer rt.Close(bg)
 	ev := &env{started: make(chan struct{}), need: 1, parked: make(chan struct{}, 8), release: make(chan struct{})}
 	ov := c.Overlap
@@ -592,6 +632,11 @@ func genCase(t *rapid.T) *Case {
 	c := &Case{Engine: rapid.SampledFrom(wz.Engines).Draw(t, "engine")}
 	c.Shape = genShape(t)
 	c.Procs = rapid.SampledFrom([]int{1, 2, 16, 16}).Draw(t, "gomaxprocs")
+	c.Shape.Mem = rapid.SampledFrom([]string{"", "nomax", "nomax", "max"}).Draw(t, "memory")
+	if rapid.IntRange(0, 3).Draw(t, "with-cache") == 0 {
+		c.Cache = rapid.SampledFrom([]string{"mem", "mem", "dir"}).Draw(t, "cache")
+		c.Primed = rapid.SampledFrom([]string{"off", "off", "on", ""}).Draw(t, "primed-by")
+	}
 	if rapid.IntRange(0, 7).Draw(t, "control") == 0 {
 		c.Cause = "none"
 		c.CtlCtx = rapid.SampledFrom([]string{"background", "cancel", "timeout"}).Draw(t, "control-ctx")
@@ -676,6 +721,10 @@ func labelsOf(c *Case, r Result) []string {
 			l = append(l, "calls:recursion-with-inner-loop")
 		}
 		l = append(l, fmt.Sprintf("calls:cycle-length:%d", len(s.Edges)))
+	}
+	l = append(l, "memory:"+s.Mem)
+	if c.Cache != "" {
+		l = append(l, "cache:"+c.Cache+":primed-by-runtime-with-option-"+c.Primed)
 	}
 	if ov := c.Overlap; ov != nil {
 		l = append(l, "overlapping-calls")
